@@ -759,6 +759,8 @@ def run(chk):
 
     def stage(name):
         chk.notes.setdefault('stage_s', {})[name] = round(time.time() - t0[0], 1)
+        if os.environ.get('VERIF_PROGRESS'):
+            print('  stage %s: %.1fs' % (name, time.time() - t0[0]), flush=True)
         t0[0] = time.time()
     chk.rule = ('construction: every glyph-class sequence up to the bound (6 classes) x every budget -2..10 x '
                 '{patched MAX_MESSAGE_LEN, real 508 with padded equipment id} executed on the real UDPListener and '
